@@ -730,7 +730,6 @@ let rec mark fx flag inner = function
 | EUn (o, a) ->
   (match o with
    | Neg -> mark fx true inner a
-   | Inv -> mark fx ((||) flag fx.fx_bint) inner a
    | _ -> mark fx flag inner a)
 | ECmp (a, b) -> app (mark fx false inner a) (mark fx false inner b)
 | ECond (c, a, b) ->
@@ -1899,9 +1898,9 @@ let gen_tables =
     (S (S (S (S (S (S (S O))))))))) :: (O :: ((S O) :: ((S (S O)) :: ((S (S
     (S O))) :: ((S (S (S (S O)))) :: ((S (S (S (S (S O))))) :: ((S (S (S (S
     (S (S O)))))) :: ((S (S (S (S (S (S (S O))))))) :: ((S (S (S (S (S (S (S
-    (S O)))))))) :: ((S (S (S (S (S (S (S (S (S O))))))))) :: ((S (S (S (S (S
-    (S (S (S (S O))))))))) :: ((S (S (S (S (S (S (S (S (S O))))))))) :: ((S
-    (S (S (S (S (S (S (S (S O))))))))) :: ((S (S (S (S (S (S (S (S (S
+    (S O)))))))) :: ((S (S (S (S (S (S (S O))))))) :: ((S (S (S (S (S (S (S
+    (S (S O))))))))) :: ((S (S (S (S (S (S (S (S (S O))))))))) :: ((S (S (S
+    (S (S (S (S (S (S O))))))))) :: ((S (S (S (S (S (S (S (S (S
     O))))))))) :: ((S (S (S (S (S (S (S (S (S O))))))))) :: ((S (S (S (S (S
     (S (S (S (S O))))))))) :: ((S (S (S (S (S (S (S (S (S O))))))))) :: ((S
     (S (S (S (S (S (S (S (S O))))))))) :: ((S (S (S (S (S (S (S (S (S
